@@ -97,8 +97,9 @@ def observe(m):
         'params': m.parameters(), 'n_par': m.n_parameters(),
         'n_out': m.n_outputs(), 'sens': bool(m.has_sensitivities())}
     try:
-        obs['probe'] = [tol.rnd(a, 7) for a in probe(m)]
-        obs['probe_raw'] = probe(m)
+        raw = probe(m)
+        obs['probe'] = [tol.rnd(a, 7) for a in raw]
+        obs['probe_raw'] = raw
     except Exception as e:
         obs['probe'] = 'raise:%s' % type(e).__name__
         obs['probe_error'] = traceback.format_exc()[-800:]
@@ -106,8 +107,33 @@ def observe(m):
 
 
 def obs_key(obs):
-    return {k: obs[k] for k in ('adm', 'reg', 'outputs', 'params', 'n_par',
-                                'n_out', 'sens', 'probe')}
+    d = {k: obs[k] for k in ('adm', 'reg', 'outputs', 'params', 'n_par',
+                             'n_out', 'sens', 'probe')}
+    d['_raw'] = obs.get('probe_raw')
+    return d
+
+
+def obs_diff(a, b, outputs_only=False):
+    """Keys in which two observations differ; probe simulations are compared with
+    the ODE tolerance (not through their rounded canonical form)."""
+    diff = [k for k in a if k not in ('probe', '_raw') and k in b and a[k] != b[k]]
+    ra, rb = a.get('_raw'), b.get('_raw')
+    if (ra is None) != (rb is None):
+        diff.append('probe')
+    elif ra is not None:
+        if outputs_only:
+            ra, rb = ra[:1], rb[:1]
+        if len(ra) != len(rb) or any(
+                x.shape != y.shape or not tol.allclose(x, y, 1e-7, 1e-10)
+                for x, y in zip(ra, rb)):
+            diff.append('probe')
+    elif a.get('probe') != b.get('probe'):
+        diff.append('probe')
+    return diff
+
+
+def strip(d):
+    return {k: v for k, v in d.items() if k != '_raw'}
 
 
 class Machine(object):
@@ -165,17 +191,12 @@ def apply_op(kind, m, mach, op, others, viol, hist_label):
             # at the moment of copying: equal except the documented sensitivity reset
             a, b = obs_key(o_obs), obs_key(c_obs)
             a.pop('sens'), b.pop('sens')
-            if o_obs['sens']:
-                # probes differ in form (sensitivities); compare outputs only
-                a['probe'] = a['probe'][:1] if isinstance(a['probe'], list) else \
-                    a['probe']
-                b['probe'] = b['probe'][:1] if isinstance(b['probe'], list) else \
-                    b['probe']
-            if a != b:
+            # with sensitivities on, probes differ in form: compare outputs only
+            if obs_diff(a, b, outputs_only=bool(o_obs['sens'])):
                 viol.append({'sub': 'copy_equal', 'message': 'a copy does not '
                              'behave like its original at the moment of copying',
-                             'history': hist_label, 'expected': a,
-                             'observed': b, 'behaviour': 'copy_equal'})
+                             'history': hist_label, 'expected': strip(a),
+                             'observed': strip(b), 'behaviour': 'copy_equal'})
             if c_obs['sens']:
                 viol.append({'sub': 'copy_sens', 'message': 'copy reports enabled '
                              'sensitivities although copying resets them',
@@ -189,10 +210,11 @@ def apply_op(kind, m, mach, op, others, viol, hist_label):
     except ValueError as e:
         if op in ('reg1', 'reg2') and mach.adm is None:
             after = obs_key(observe(m))
-            if after != before:
+            if obs_diff(after, before):
                 viol.append({'sub': 'rejected_changed', 'message': 'rejected '
                              'set_dosing_regimen changed the model (after %s)'
-                             % hist_label, 'expected': before, 'observed': after})
+                             % hist_label, 'expected': strip(before),
+                             'observed': strip(after)})
             return m
         if op in ('renP', 'renO') and 'coincide' in str(e):
             return m           # renaming to an existing name is refused: no change
@@ -284,8 +306,8 @@ def w_history(case):
                          'behaviour': 'fresh_fail'})
         if fo is not None:
             a, b = obs_key(obs), obs_key(fo)
-            if a != b:
-                diff = [k for k in a if a[k] != b[k]]
+            diff = obs_diff(a, b)
+            if diff:
                 viol.append({
                     'sub': 'consistency', 'message': 'model after a history of '
                     'configuration calls differs from a fresh model configured to '
@@ -295,18 +317,218 @@ def w_history(case):
     # (3) copies are unaffected by what happened to the other afterwards
     for other, at_copy, role in others:
         now = obs_key(observe(other))
-        if now != at_copy:
-            diff = [k for k in now if now[k] != at_copy[k]]
+        diff = obs_diff(now, at_copy)
+        if diff:
             viol.append({'sub': 'copy_indep', 'message': 'the %s changed through '
                          'later operations on the other model: %s'
-                         % (role, diff), 'history': lab, 'expected': at_copy, 'observed': now,
+                         % (role, diff), 'history': lab, 'expected': strip(at_copy),
+                         'observed': strip(now),
                          'behaviour': 'copy_indep'})
-    state = key_of([kind, obs_key(obs), mach.adm, mach.reg, mach.outs, mach.sens])
+    state = key_of([kind, strip(obs_key(obs)), mach.adm, mach.reg, mach.outs,
+                    mach.sens])
     return {'state': state, 'transitions': len(history) + 4,
             'outcome': state, 'violations': viol}
 
 
+# ----------------------------------------------- reduced mechanistic model histories
+
+RED_OPS = ['fix0', 'fixlast', 'relall', 'reg1', 'reg2', 'out1', 'out2', 'sensOn',
+           'sensOff', 'sim', 'copyC', 'copyO', 'renP']
+
+
+def red_probe(rm, fixed_pos, n_full):
+    """Simulation of the reduced model at distinct values for the free parameters;
+    returns (result list, full vector)."""
+    full = [0.3 + 0.23 * i for i in range(n_full)]
+    for i, v in fixed_pos.items():
+        full[i] = v
+    x = [full[i] for i in range(n_full) if i not in fixed_pos]
+    res = rm.simulate(x, PROBE_TIMES)
+    if isinstance(res, tuple):
+        return [np.asarray(res[0], dtype=float), np.asarray(res[1], dtype=float)], \
+            full
+    return [np.asarray(res, dtype=float)], full
+
+
+def red_observe(rm, fixed_pos, n_full):
+    obs = {'reg': reg_events(rm), 'outputs': rm.outputs(),
+           'params': rm.parameters(), 'n_par': rm.n_parameters(),
+           'n_out': rm.n_outputs(), 'sens': bool(rm.has_sensitivities()),
+           'n_fixed': rm.n_fixed_parameters()}
+    try:
+        pr, full = red_probe(rm, fixed_pos, n_full)
+        obs['probe'] = [tol.rnd(a, 7) for a in pr]
+    except Exception as e:
+        obs['probe'] = 'raise:%s' % type(e).__name__
+        obs['probe_error'] = traceback.format_exc()[-800:]
+    return obs
+
+
+def w_red_history(case):
+    kind = case[0]
+    history = case[1:]
+    K = KINDS[kind]
+    viol = []
+    base = fresh(kind)
+    base.set_administration(K['comps'][0], amount_var=K['amount'][K['comps'][0]],
+                            direct=False)
+    n_full = base.n_parameters()
+    rm = chi.ReducedMechanisticModel(base)
+    fixed = {}            # position in the full parameter list -> value
+    mach = {'reg': None, 'outs': to_myokit_outputs(kind, rm.outputs()),
+            'sens': False}
+    others = []
+    for i, op in enumerate(history):
+        free = [j for j in range(n_full) if j not in fixed]
+        names = rm.parameters()
+        if op in ('fix0', 'fixlast'):
+            if not free:
+                continue
+            j = free[0] if op == 'fix0' else free[-1]
+            if len(free) == 1 and rm.has_sensitivities():
+                continue      # known finding F-C08-all-fixed-sens, decided in C08
+            rm.fix_parameters({names[free.index(j)]: 0.7 + 0.1 * j})
+            fixed[j] = 0.7 + 0.1 * j
+        elif op == 'relall':
+            full_names = rm.mechanistic_model().parameters()
+            rm.fix_parameters({n_: None for n_ in full_names})
+            fixed = {}
+        elif op == 'reg1':
+            rm.set_dosing_regimen(**REG1)
+            mach['reg'] = REG1_EVENTS
+        elif op == 'reg2':
+            rm.set_dosing_regimen(protocol(REG2_EVENTS))
+            mach['reg'] = REG2_EVENTS
+        elif op in ('out1', 'out2'):
+            rm.set_outputs(list(K[op]))
+            mach['outs'] = list(K[op])
+            mach['sens'] = False
+        elif op == 'sensOn':
+            if not free:
+                continue
+            rm.enable_sensitivities(True)
+            mach['sens'] = True
+        elif op == 'sensOff':
+            rm.enable_sensitivities(False)
+            mach['sens'] = False
+        elif op == 'sim':
+            red_probe(rm, fixed, n_full)
+        elif op == 'renP':
+            try:
+                rm.set_parameter_names({K['renP'][0]: K['renP'][1]})
+            except ValueError:
+                pass
+        elif op in ('copyC', 'copyO'):
+            c = rm.copy()
+            a = red_observe(rm, fixed, n_full)
+            b = red_observe(c, fixed, n_full)
+            ka = {k: a[k] for k in a if k not in ('sens', 'probe_error')}
+            kb = {k: b[k] for k in b if k not in ('sens', 'probe_error')}
+            if a['sens']:
+                for kk in (ka, kb):
+                    if isinstance(kk['probe'], list):
+                        kk['probe'] = kk['probe'][:1]
+            if ka != kb:
+                viol.append({'sub': 'red_copy_equal', 'message': 'copy of a reduced '
+                             'model does not behave like its original at the moment '
+                             'of copying', 'history': history[:i + 1],
+                             'expected': ka, 'observed': kb,
+                             'behaviour': 'red_copy_equal'})
+            if op == 'copyC':
+                others.append((rm, dict(fixed), {k: a[k] for k in a
+                                                 if k != 'probe_error'}))
+                rm = c
+                mach['sens'] = False if not b['sens'] else mach['sens']
+            else:
+                others.append((c, dict(fixed), {k: b[k] for k in b
+                                                if k != 'probe_error'}))
+    obs = red_observe(rm, fixed, n_full)
+    lab = '>'.join(history) or '(fresh)'
+    free = [j for j in range(n_full) if j not in fixed]
+    # counts and names: free parameters in original order
+    full_names = rm.mechanistic_model().parameters()
+    e_names = [full_names[j] for j in free]
+    if obs['params'] != e_names or obs['n_par'] != len(free) or \
+            obs['n_fixed'] != len(fixed):
+        viol.append({'sub': 'red_names', 'message': 'reduced mechanistic model does '
+                     'not list the free parameters in original order',
+                     'history': lab, 'expected': [e_names, len(free), len(fixed)],
+                     'observed': [obs['params'], obs['n_par'], obs['n_fixed']],
+                     'behaviour': 'red_names'})
+    rep = {'reg': obs['reg'], 'outputs': to_myokit_outputs(kind, obs['outputs'])}
+    if (rep['reg'] is None) != (mach['reg'] is None) or (
+            rep['reg'] is not None and not tol.allclose(
+                np.array(rep['reg'], dtype=float),
+                np.array(sorted(mach['reg']), dtype=float))):
+        viol.append({'sub': 'red_reg', 'message': 'reported regimen is not the one '
+                     'last set', 'history': lab, 'expected': mach['reg'],
+                     'observed': rep['reg'], 'behaviour': 'red_field_reg'})
+    if rep['outputs'] != mach['outs']:
+        viol.append({'sub': 'red_out', 'message': 'reported outputs are not the '
+                     'ones last set', 'history': lab, 'expected': mach['outs'],
+                     'observed': rep['outputs'], 'behaviour': 'red_field_outputs'})
+    # differential: a fresh unreduced model configured to the reports, evaluated at
+    # the substituted full vector
+    if isinstance(obs['probe'], str):
+        viol.append({'sub': 'red_probe', 'message': 'reduced model cannot simulate '
+                     'a vector of its reported length', 'history': lab,
+                     'expected': 'simulation', 'observed': obs.get('probe_error'),
+                     'behaviour': 'red_probe_' + obs['probe']})
+    elif free:
+        f = fresh(kind)
+        f.set_administration(K['comps'][0], amount_var=K['amount'][K['comps'][0]],
+                             direct=False)
+        if obs['reg'] is not None:
+            f.set_dosing_regimen(protocol(obs['reg']))
+        f.set_outputs(rep['outputs'])
+        full = [0.3 + 0.23 * i for i in range(n_full)]
+        for j, v in fixed.items():
+            full[j] = v
+        y = np.asarray(f.simulate(full, PROBE_TIMES), dtype=float)
+        exp = [y]
+        if obs['sens']:
+            f.enable_sensitivities(True)
+            y2, S = f.simulate(full, PROBE_TIMES)
+            exp = [np.asarray(y2, dtype=float),
+                   np.asarray(S, dtype=float)[:, :, free]]
+        got_arrays = [np.asarray(a, dtype=float) for a in obs['probe']]
+        same = len(got_arrays) == len(exp) and all(
+            g.shape == e.shape and tol.allclose(g, e, 1e-6, 1e-9)
+            for g, e in zip(got_arrays, exp))
+        if not same:
+            viol.append({'sub': 'red_consistency', 'message': 'reduced model after '
+                         'a history differs from a fresh model at the substituted '
+                         'vector (outputs%s)' % (' / sensitivities w.r.t. the free '
+                                                 'parameters' if obs['sens'] else ''),
+                         'history': lab, 'expected': exp, 'observed': obs['probe'],
+                         'behaviour': 'red_consistency'})
+    for other, ofixed, at_copy in others:
+        now = red_observe(other, ofixed, n_full)
+        now = {k: now[k] for k in now if k != 'probe_error'}
+        if now != at_copy:
+            viol.append({'sub': 'red_copy_indep', 'message': 'a reduced model or '
+                         'its copy changed through later operations on the other',
+                         'history': lab, 'expected': at_copy, 'observed': now,
+                         'behaviour': 'red_copy_indep'})
+    state = key_of([kind, {k: obs[k] for k in obs if k != 'probe_error'},
+                    sorted(fixed.items()), mach])
+    return {'state': state, 'transitions': len(history) + 3, 'outcome': state,
+            'violations': viol}
+
+
 WORKERS = {}
+
+
+def make_red_search(kind, depth):
+    name = 'reduced_' + kind
+    WORKERS[name] = w_red_history
+
+    def run(workers):
+        return bfs(name, w_red_history, RED_OPS, depth, seeds=[[kind]],
+                   workers=workers,
+                   descr='BFS over histories on a ReducedMechanisticModel around '
+                         '%s (indirect administration), depth %d' % (kind, depth))
+    return run
 
 
 def _ops(kind):
@@ -331,15 +553,17 @@ def make_search(kind, depth, seeds):
 
 for _k in KINDS:
     WORKERS['histories_' + _k] = w_history
+    WORKERS['reduced_' + _k] = w_red_history
 
 
 def build(tier, seed):
     seeds = [[], ['admD', 'reg1'], ['admI', 'reg2'], ['admD', 'sensOn']]
     if tier == 'quick':
-        searches = [make_search('lib1', 3, seeds)]
+        searches = [make_search('lib1', 3, seeds), make_red_search('lib1', 3)]
     else:
         searches = [make_search('lib1', 10, seeds), make_search('chain2', 10, seeds),
-                    make_search('lib2', 10, seeds[:2])]
+                    make_search('lib2', 10, seeds[:2]),
+                    make_red_search('lib1', 5), make_red_search('chain2', 4)]
     return {
         'parts': [],
         'searches': searches,
